@@ -394,6 +394,15 @@ def stepTFC (s : St) (op : List String) (impl : String) : St × String :=
           (s', s!"{noBody}\t{impl}\t{verdictEq "textfield" (dropN impl) (tfcExpect s' ed' ecb)}")
       | none => (s, "bad-op\tbad-op\tbad-op")
     | none => (s, "bad-op\tbad-op\tbad-op")
+  | ["seg", t] =>
+    -- the segmentation laws on one text: the model column is the driver's clUax (clusters and its own
+    -- law check), the implementation column the real uniseg; the verdict judges uniseg's laws
+    match ids? t with
+    | some t =>
+      let lw := if segLawsOk cl t then "ok" else "violated"
+      let v := if impl.endsWith " laws=ok" then "ok" else s!"FAIL segmentation law violated by uniseg on this text: {impl}"
+      (s, s!"seg={showClusters (cl t)} laws={lw}\t{impl}\t{v}")
+    | none => (s, "bad-op\tbad-op\tbad-op")
   | ["draw", w, h] =>
     match w.toNat?, h.toNat? with
     | some w, some h =>
